@@ -33,6 +33,8 @@ from sa.resolve import Resolver
 
 
 def run(repo: Repo, rep: Report, tier: str) -> None:
+    from sa.report import guarded as _guarded
+
     # ---------------------------------------------------------------- R13.2
     forms = []
     for label, spec in GROUPERS:
@@ -226,17 +228,17 @@ def run(repo: Repo, rep: Report, tier: str) -> None:
                 rep.violation("R13.5", sub, f"{fn.fq}|nature|from-ir|{from_ir}",
                               f"the decision text derives from the IR ({from_ir}) instead of the rendered signature", fn.loc(t))
 
-    rule_memo_keys(repo, rep, "R13.7")
-    rule_ir_not_mutated(repo, rep, "R13.8")
-    rule_self_import_compares_the_package(repo, rep, "R13.9")
+    _guarded(rep, rule_memo_keys, repo, rep, "R13.7")
+    _guarded(rep, rule_ir_not_mutated, repo, rep, "R13.8")
+    _guarded(rep, rule_self_import_compares_the_package, repo, rep, "R13.9")
     from rules.c05 import rule_range_primary_gets_an_arm
 
-    rule_range_primary_gets_an_arm(repo, rep, "R13.10")
-    rule_mocks_after_the_renamer(repo, rep, "R13.11")
-    rule_streamed_default_is_yielded(repo, rep, "R13.12")
+    _guarded(rep, rule_range_primary_gets_an_arm, repo, rep, "R13.10")
+    _guarded(rep, rule_mocks_after_the_renamer, repo, rep, "R13.11")
+    _guarded(rep, rule_streamed_default_is_yielded, repo, rep, "R13.12")
     from rules.c20 import rule_models_spare_endpoint_names
 
-    rule_models_spare_endpoint_names(repo, rep, "R13.13")
+    _guarded(rep, rule_models_spare_endpoint_names, repo, rep, "R13.13")
     # ---------------------------------------------------------------- R13.6 one-line sniffing obliges the signature writer
     # A consumer that looks for the return annotation in ONE rendered line (the line that closes the signature) relies on the
     # signature writer putting the whole annotation on that line; a consumer that joins the collected lines does not.
